@@ -1283,10 +1283,12 @@ Proof. intros Hc Ho. unfold cds_within. apply filter_In. split; assumption. Qed.
 
 (* ------------------------------------------------------------------ the intergenic areas of find_all_orfs *)
 (* an area that find_all_orfs may scan: a window of the record (possibly over the origin) not longer than the
-   record, sharing at most max_overlap positions with every gene of the record, inside the searched part *)
+   record, sharing at most max_overlap positions with every gene of the record that does not reach into both parts
+   of an origin-spanning area (for those the window joined over the origin may hold up to twice max_overlap, and the
+   test on the ORFs, within_overlap, takes over), inside the searched part *)
 Definition area_ok (N : Z) (cds : list loc) (area : option loc) (ov : Z) (a : Z * Z) : Prop :=
   window_ok N (fst a) (snd a) /\ snd a - fst a <= N /\
-  (forall c, In c cds -> count (fun x => in_loc x c) (area_positions N a) <= ov) /\
+  (forall c, In c cds -> in_both area c = false -> count (fun x => in_loc x c) (area_positions N a) <= ov) /\
   (forall x, In x (area_positions N a) -> in_searched N area x = true).
 
 Lemma area_bounds start end_ genes ml ov a : 0 <= ov -> starts_sorted genes ->
@@ -1338,7 +1340,7 @@ Lemma plain_area_ok N cds area ov a lo hi :
   area_ok N cds area ov a.
 Proof.
   intros H0 H1 H2 H3 H4 Hc Hs. unfold area_ok, area_positions.
-  rewrite map_mod_zrange_id by lia. split; [left; lia|]. split; [lia|]. split; [exact Hc|].
+  rewrite map_mod_zrange_id by lia. split; [left; lia|]. split; [lia|]. split; [intros c Hcin _; exact (Hc c Hcin)|].
   intros x Hx. apply zrange_In in Hx. apply Hs. lia.
 Qed.
 
@@ -1442,12 +1444,11 @@ Qed.
 Lemma merged_area_ok N cds p1 p2 ml ov pre post :
   0 < N -> 0 <= ml -> 0 <= ov -> starts_sorted (map gene_span cds) ->
   pe p1 = N -> ps p2 = 0 -> 0 < pe p2 -> pe p2 <= ps p1 -> ps p1 < N ->
-  no_gene_in_both cds p1 p2 = true ->
   let areas := flat_map (fun p => find_intergenic_areas (ps p) (pe p) (map gene_span (cds_within cds p)) ml ov) [p1; p2] in
   In pre areas -> In post areas -> snd pre = N -> fst post = 0 -> fst pre - N < 0 ->
   area_ok N cds (Some [p1; p2]) ov (fst pre - N, snd post).
 Proof.
-  intros HN Hml Hov Hs E1 E2 E3 E4 E5 Hboth. cbn zeta. cbn [flat_map]. rewrite app_nil_r.
+  intros HN Hml Hov Hs E1 E2 E3 E4 E5. cbn zeta. cbn [flat_map]. rewrite app_nil_r.
   intros Hpre Hpost Hsp Hfp Hneg.
   pose proof (cds_within_sorted cds p1 Hs) as Hs1. pose proof (cds_within_sorted cds p2 Hs) as Hs2.
   assert (Hpre1 : In pre (find_intergenic_areas (ps p1) (pe p1) (map gene_span (cds_within cds p1)) ml ov)).
@@ -1465,13 +1466,12 @@ Proof.
     - replace (a - N) with (a + (-1) * N) by lia. rewrite map_mod_zrange_shift. apply map_mod_zrange_id; lia.
     - replace (a - N + (N - a)) with 0 by lia. apply map_mod_zrange_id; lia. }
   unfold area_ok. cbn [fst snd]. rewrite Hpos. split; [right; lia|]. split; [lia|]. split.
-  - intros c Hc. rewrite count_app.
+  - intros c Hc Hboth. rewrite count_app.
     pose proof (part_gene_bound cds p1 ml ov pre c Hov Hs Hpre1 Hc) as B1.
     pose proof (part_gene_bound cds p2 ml ov post c Hov Hs Hpost2 Hc) as B2.
     replace (snd pre - fst pre) with (N - a) in B1 by (unfold a; lia).
     replace (snd post - fst post) with b in B2 by (unfold b; lia). rewrite Hfp in B2. fold a in B1.
-    unfold no_gene_in_both in Hboth. rewrite forallb_forall in Hboth. specialize (Hboth c Hc).
-    apply negb_true_iff in Hboth. apply andb_false_iff in Hboth. destruct Hboth as [Hno|Hno].
+    cbn [in_both] in Hboth. apply andb_false_iff in Hboth. destruct Hboth as [Hno|Hno].
     + rewrite (count_none _ (zrange a (N - a))); [lia|]. intros x Hx. apply zrange_In in Hx.
       destruct (in_loc x c) eqn:Hxc; [|reflexivity]. exfalso.
       pose proof (no_overlap_no_position c p1 x Hno Hxc) as Hp.
@@ -1485,13 +1485,12 @@ Proof.
     + assert (E : in_part x p2 = true) by (apply in_part_iff; lia). rewrite E. apply orb_true_r.
 Qed.
 
-(* all the areas find_all_orfs scans are fine, under the guard *)
+(* all the areas find_all_orfs scans are fine, for every well-formed input *)
 Lemma intergenic_for_ok N cds area ml ov areas :
-  gaps_guard N cds area ml ov = true -> intergenic_for N cds area ml ov = Ok areas ->
+  gaps_wf N cds area ml ov = true -> intergenic_for N cds area ml ov = Ok areas ->
   Forall (area_ok N cds area ov) areas.
 Proof.
-  unfold gaps_guard, gaps_wf. intros Hg Hres.
-  apply andb_prop in Hg. destruct Hg as [Hwf Hcls].
+  unfold gaps_wf. intros Hwf Hres.
   apply andb_prop in Hwf. destruct Hwf as [Hwf Hshape].
   apply andb_prop in Hwf. destruct Hwf as [Hwf Hsb]. apply starts_sortedb_spec in Hsb.
   apply andb_prop in Hwf. destruct Hwf as [Hwf Hov]. apply Z.leb_le in Hov.
@@ -1513,7 +1512,6 @@ Proof.
       apply andb_prop in Hshape. destruct Hshape as [Hshape E5]. apply andb_prop in Hshape. destruct Hshape as [Hshape E4].
       apply andb_prop in Hshape. destruct Hshape as [Hshape E3]. apply andb_prop in Hshape. destruct Hshape as [E1 E2].
       apply Z.eqb_eq in E1, E2. apply Z.ltb_lt in E3, E5. apply Z.leb_le in E4.
-      pose proof Hcls as Hboth.
       pose proof (cross_origin_result N cds [p1; p2] ml ov areas Hres a Ha) as Hcase. cbn zeta in Hcase.
       destruct Hcase as [Hin|(pre & post & Hpre & Hpost & Hsp & Hfp & Hneg & ->)].
       * cbn [flat_map] in Hin. rewrite app_nil_r in Hin. apply in_app_or in Hin. destruct Hin as [Hin|Hin].
@@ -1527,7 +1525,7 @@ Proof.
            ++ intros c Hc. exact (part_gene_bound cds p2 ml ov a c Hov Hsb Hin Hc).
            ++ intros x Hx. cbn [in_searched in_loc existsb].
               assert (E : in_part x p2 = true) by (apply in_part_iff; lia). rewrite E. apply orb_true_r.
-      * exact (merged_area_ok N cds p1 p2 ml ov pre post HN Hml Hov Hsb E1 E2 E3 E4 E5 Hboth Hpre Hpost Hsp Hfp Hneg).
+      * exact (merged_area_ok N cds p1 p2 ml ov pre post HN Hml Hov Hsb E1 E2 E3 E4 E5 Hpre Hpost Hsp Hfp Hneg).
   - (* whole record *)
     cbn [intergenic_for] in Hres. inversion Hres; subst areas. clear Hres.
     destruct (area_bounds _ _ _ _ _ _ Hov Hsb Ha) as (B1 & B2 & B3).
@@ -1595,17 +1593,88 @@ Proof.
   destruct t as [|c r]; [discriminate|]. intros H. inversion H. reflexivity.
 Qed.
 
+(* ------------------------------------------------------------------ the max_overlap test on the ORFs (repair of FC15b) *)
+(* _overlap_size is at least the number of positions of the first location that lie inside the second (equal unless
+   parts of one location overlap each other): Model.shared, the quantity of the specification *)
+Lemma count_orb P Q l : count (fun x => P x || Q x) l <= count P l + count Q l.
+Proof.
+  induction l as [|x l IH]; [cbn; lia|]. rewrite !count_cons. destruct (P x), (Q x); cbn [orb]; lia.
+Qed.
+Lemma count_in_part_range b s n : count (fun x => in_part x b) (zrange s n) <= Z.max 0 (Z.min (s + n) (pe b) - Z.max s (ps b)).
+Proof.
+  destruct (Z_le_gt_dec 0 n) as [Hn|Hn].
+  - apply count_zrange_bound; [|exact Hn]. intros x Hx. apply in_part_iff. exact Hx.
+  - rewrite zrange_nonpos by lia. cbn. lia.
+Qed.
+Lemma count_in_loc_part a : forall c,
+  count (fun x => in_loc x c) (part_positions a) <= fold_right Z.add 0 (map (part_shared a) c).
+Proof.
+  assert (Hrev : forall P, count P (part_positions a) = count P (zrange (ps a) (pe a - ps a))).
+  { intros P. unfold part_positions. destruct (pst a =? -1); [apply count_rev|reflexivity]. }
+  induction c as [|b c IH].
+  - cbn [map fold_right]. rewrite count_none; [lia|]. intros x _. reflexivity.
+  - cbn [map fold_right].
+    assert (E : count (fun x => in_loc x (b :: c)) (part_positions a) =
+                count (fun x => in_part x b || in_loc x c) (part_positions a)) by reflexivity.
+    rewrite E.
+    pose proof (count_orb (fun x => in_part x b) (fun x => in_loc x c) (part_positions a)) as H1.
+    rewrite (Hrev (fun x => in_part x b)) in H1.
+    pose proof (count_in_part_range b (ps a) (pe a - ps a)) as H2.
+    replace (ps a + (pe a - ps a)) with (pe a) in H2 by lia. unfold part_shared.
+    set (u := count (fun x => in_part x b || in_loc x c) (part_positions a)) in *.
+    set (v := count (fun x => in_loc x c) (part_positions a)) in *.
+    set (w := count (fun x => in_part x b) (zrange (ps a) (pe a - ps a))) in *.
+    set (t := fold_right Z.add 0 (map (fun b0 => Z.max 0 (Z.min (pe a) (pe b0) - Z.max (ps a) (ps b0))) c)) in *.
+    unfold part_shared in IH. fold t in IH. clearbody u v w t. lia.
+Qed.
+Lemma fold_add_app a b : fold_right Z.add 0 (a ++ b) = fold_right Z.add 0 a + fold_right Z.add 0 b.
+Proof. induction a as [|x a IH]; cbn [app fold_right]; lia. Qed.
+Lemma shared_le_overlap_size o c : shared o c <= overlap_size o c.
+Proof.
+  unfold shared, overlap_size. fold (count (fun x => in_loc x c) (positions o)). unfold positions.
+  induction o as [|a o IH]; [cbn; lia|]. cbn [flat_map]. rewrite count_app, fold_add_app.
+  pose proof (count_in_loc_part a c). lia.
+Qed.
+
+(* a gene reaching into both parts of an origin-spanning area overlaps the area's location *)
+Lemma in_both_overlap p1 p2 c : in_both (Some [p1; p2]) c = true -> overlap c [p1; p2] = true.
+Proof.
+  cbn [in_both]. intros H. apply andb_prop in H. destruct H as [H _]. unfold overlap in *.
+  apply existsb_exists in H. destruct H as (q & Hq & Hqp). apply existsb_exists. exists q. split; [exact Hq|].
+  cbn [existsb] in *. rewrite orb_false_r in Hqp. rewrite Hqp. reflexivity.
+Qed.
+
+(* what the test keeps: a subset of the ORFs found, and for an origin-spanning area only ORFs sharing at most max_overlap
+   positions with every gene reaching into both parts *)
+Lemma within_overlap_In cds area ov locs l : In l (within_overlap cds area ov locs) ->
+  In l locs /\ forall c, In c cds -> in_both area c = true -> shared l c <= ov.
+Proof.
+  unfold within_overlap. intros H.
+  destruct area as [aloc|]; [|split; [exact H|intros c _ Hb; discriminate]].
+  destruct aloc as [|p1 [|p2 [|p3 rest]]]; cbn [is_compound] in H;
+    try (split; [exact H|intros c _ Hb; discriminate]).
+  - apply filter_In in H. destruct H as [Hl Hall]. split; [exact Hl|]. intros c Hc Hb.
+    rewrite forallb_forall in Hall.
+    assert (Hin : In c (filter (fun c => overlap c [p1; p2]) cds)).
+    { apply filter_In. split; [exact Hc|]. apply in_both_overlap. exact Hb. }
+    specialize (Hall c Hin). apply Z.leb_le in Hall. pose proof (shared_le_overlap_size l c). lia.
+  - apply filter_In in H. destruct H as [Hl _]. split; [exact Hl|]. intros c _ Hb. discriminate.
+Qed.
+
 Lemma find_all_orfs_unwind g cds area ml ov feats f :
   find_all_orfs g cds area ml ov = Ok feats -> In f feats ->
   exists areas a, intergenic_for (zlen g) cds area ml ov = Ok areas /\ In a areas /\
-                  In (floc f) (area_orfs g ml a) /\ create_feature g (floc f) = Ok f.
+                  In (floc f) (area_orfs g ml a) /\ create_feature g (floc f) = Ok f /\
+                  forall c, In c cds -> in_both area c = true -> shared (floc f) c <= ov.
 Proof.
   unfold find_all_orfs. intros H Hf.
   destruct (intergenic_for (zlen g) cds area ml ov) as [areas|]; [|discriminate]. cbn [bind] in H.
   destruct (existsb (fun a => zlen g <? snd a) areas); [discriminate|].
-  destruct (mapM (create_feature g) (flat_map (area_orfs g ml) areas)) as [fs|] eqn:Hm; [|discriminate].
+  destruct (mapM (create_feature g) (within_overlap cds area ov (flat_map (area_orfs g ml) areas))) as [fs|] eqn:Hm;
+    [|discriminate].
   cbn [bind] in H. inversion H; subst feats. apply sort_by_In in Hf.
   destruct (mapM_In _ _ _ _ Hm Hf) as (l & Hl & Hc).
+  apply within_overlap_In in Hl. destruct Hl as [Hl Hboth].
   apply in_flat_map in Hl. destruct Hl as (a & Ha & Hla).
   pose proof (create_feature_loc g l f Hc) as E. subst l.
   exists areas, a. auto.
@@ -1614,77 +1683,79 @@ Qed.
 (* C15_gaps: every feature returned by find_all_orfs lies inside one of the intergenic areas, shares at most
    max_overlap positions with every gene of the record, and lies inside the searched part of the record *)
 Lemma find_all_orfs_gaps g cds area ml ov feats f :
-  gaps_guard (zlen g) cds area ml ov = true -> find_all_orfs g cds area ml ov = Ok feats -> In f feats ->
+  gaps_wf (zlen g) cds area ml ov = true -> find_all_orfs g cds area ml ov = Ok feats -> In f feats ->
   (exists areas a, intergenic_for (zlen g) cds area ml ov = Ok areas /\ In a areas /\
                    forall x, In x (positions (floc f)) -> In x (area_positions (zlen g) a)) /\
   (forall c, In c cds -> shared (floc f) c <= ov) /\
   (forall x, In x (positions (floc f)) -> in_searched (zlen g) area x = true).
 Proof.
   intros Hg Hres Hf.
-  destruct (find_all_orfs_unwind g cds area ml ov feats f Hres Hf) as (areas & a & Hareas & Ha & Hl & _).
+  destruct (find_all_orfs_unwind g cds area ml ov feats f Hres Hf) as (areas & a & Hareas & Ha & Hl & _ & Hboth).
   pose proof (intergenic_for_ok _ _ _ _ _ _ Hg Hareas) as Hok. rewrite Forall_forall in Hok.
   specialize (Hok a Ha).
   destruct (orf_in_area g a ml (floc f) cds area ov Hok Hl) as [Hin Hcount].
   destruct Hok as (_ & _ & Hgenes & Hsearch).
   split; [exists areas, a; auto|]. split.
-  - intros c Hc. unfold shared. specialize (Hcount (fun x => in_loc x c)). specialize (Hgenes c Hc).
+  - intros c Hc. destruct (in_both area c) eqn:Hb; [exact (Hboth c Hc Hb)|].
+    unfold shared. specialize (Hcount (fun x => in_loc x c)). specialize (Hgenes c Hc Hb).
     unfold count in *. lia.
   - intros x Hx. apply Hsearch. apply Hin. exact Hx.
 Qed.
 
 (* ------------------------------------------------------------------ the translation of a new feature *)
-Definition acgt_codes : list Z := [65; 67; 71; 84; 97; 99; 103; 116].
+Definition iupac_codes : list Z := [65; 67; 71; 84; 77; 82; 87; 83; 89; 75; 86; 72; 68; 66; 78;
+                                   97; 99; 103; 116; 109; 114; 119; 115; 121; 107; 118; 104; 100; 98; 110].
 Definition odd_residue (aa : Z) : bool := existsb (Z.eqb aa) [42; 66; 74; 79; 85; 90].
 
-(* facts about the generated codon tables and the translation table, checked by evaluation over the 512
-   codons of ACGT/acgt: a codon translates to '*' exactly when the scan classifies it as a stop codon, no other
+(* facts about the generated codon tables and the translation table, checked by evaluation over the 27000
+   codons of the 30 IUPAC DNA letters (both cases): a codon translates to '*' exactly when the scan classifies it as a stop codon, no other
    residue is replaced by X, and complementing stays inside the alphabet *)
 Lemma codon_table_facts :
   forallb (fun a => forallb (fun b => forallb (fun c =>
     Bool.eqb (translate_codon a b c =? 42) (kind_eqb (classify (upper a) (upper b) (upper c)) KStop) &&
     Bool.eqb (odd_residue (translate_codon a b c)) (translate_codon a b c =? 42))
-    acgt_codes) acgt_codes) acgt_codes = true /\
-  forallb (fun a => acgtb (comp a)) acgt_codes = true.
+    iupac_codes) iupac_codes) iupac_codes = true /\
+  forallb (fun a => iupacb (comp a)) iupac_codes = true.
 Proof. split; vm_compute; reflexivity. Qed.
 
-Lemma acgtb_In c : acgtb c = true -> In c acgt_codes.
+Lemma iupacb_In c : iupacb c = true -> In c iupac_codes.
 Proof.
-  unfold acgtb. intros H. apply existsb_exists in H. destruct H as (x & Hx & E). apply Z.eqb_eq in E. subst. exact Hx.
+  unfold iupacb. intros H. apply existsb_exists in H. destruct H as (x & Hx & E). apply Z.eqb_eq in E. subst. exact Hx.
 Qed.
 
-Lemma codon_facts a b c : acgtb a = true -> acgtb b = true -> acgtb c = true ->
+Lemma codon_facts a b c : iupacb a = true -> iupacb b = true -> iupacb c = true ->
   (translate_codon a b c =? 42) = kind_eqb (classify (upper a) (upper b) (upper c)) KStop /\
   odd_residue (translate_codon a b c) = (translate_codon a b c =? 42).
 Proof.
-  intros Ha Hb Hc. apply acgtb_In in Ha, Hb, Hc. destruct codon_table_facts as [H _].
+  intros Ha Hb Hc. apply iupacb_In in Ha, Hb, Hc. destruct codon_table_facts as [H _].
   rewrite forallb_forall in H. specialize (H a Ha). rewrite forallb_forall in H. specialize (H b Hb).
   rewrite forallb_forall in H. specialize (H c Hc). apply andb_prop in H. destruct H as [H1 H2].
   apply eqb_prop in H1. apply eqb_prop in H2. split; assumption.
 Qed.
-Lemma comp_acgt a : acgtb a = true -> acgtb (comp a) = true.
+Lemma comp_iupac a : iupacb a = true -> iupacb (comp a) = true.
 Proof.
-  intros Ha. apply acgtb_In in Ha. destruct codon_table_facts as [_ H]. rewrite forallb_forall in H. exact (H a Ha).
+  intros Ha. apply iupacb_In in Ha. destruct codon_table_facts as [_ H]. rewrite forallb_forall in H. exact (H a Ha).
 Qed.
 
-Definition acgt (l : list Z) : Prop := Forall (fun c => acgtb c = true) l.
+Definition iupac (l : list Z) : Prop := Forall (fun c => iupacb c = true) l.
 
-Lemma acgt_firstn k l : acgt l -> acgt (firstn k l).
-Proof. unfold acgt. rewrite !Forall_forall. intros H x Hx. apply H. eapply In_firstn_incl. exact Hx. Qed.
-Lemma acgt_skipn k l : acgt l -> acgt (skipn k l).
-Proof. unfold acgt. rewrite !Forall_forall. intros H x Hx. apply H. eapply In_skipn_incl. exact Hx. Qed.
-Lemma acgt_app a b : acgt a -> acgt b -> acgt (a ++ b).
-Proof. unfold acgt. intros Ha Hb. apply Forall_app. split; assumption. Qed.
-Lemma acgt_revcomp l : acgt l -> acgt (revcomp l).
+Lemma iupac_firstn k l : iupac l -> iupac (firstn k l).
+Proof. unfold iupac. rewrite !Forall_forall. intros H x Hx. apply H. eapply In_firstn_incl. exact Hx. Qed.
+Lemma iupac_skipn k l : iupac l -> iupac (skipn k l).
+Proof. unfold iupac. rewrite !Forall_forall. intros H x Hx. apply H. eapply In_skipn_incl. exact Hx. Qed.
+Lemma iupac_app a b : iupac a -> iupac b -> iupac (a ++ b).
+Proof. unfold iupac. intros Ha Hb. apply Forall_app. split; assumption. Qed.
+Lemma iupac_revcomp l : iupac l -> iupac (revcomp l).
 Proof.
-  unfold acgt, revcomp. rewrite !Forall_forall. intros H x Hx. apply in_rev in Hx. apply in_map_iff in Hx.
-  destruct Hx as (y & <- & Hy). apply comp_acgt. apply H. exact Hy.
+  unfold iupac, revcomp. rewrite !Forall_forall. intros H x Hx. apply in_rev in Hx. apply in_map_iff in Hx.
+  destruct Hx as (y & <- & Hy). apply comp_iupac. apply H. exact Hy.
 Qed.
-Lemma acgt_window g s e direction : acgt g -> acgt (window g s e direction).
+Lemma iupac_window g s e direction : iupac g -> iupac (window g s e direction).
 Proof.
-  intros Hg. assert (Hc : acgt (chunk g s e)).
-  { unfold chunk. destruct (0 <=? s); [unfold slice; apply acgt_firstn, acgt_skipn; exact Hg|].
-    apply acgt_app; [apply acgt_skipn|apply acgt_firstn]; exact Hg. }
-  unfold window. destruct (direction =? -1); [apply acgt_revcomp|]; exact Hc.
+  intros Hg. assert (Hc : iupac (chunk g s e)).
+  { unfold chunk. destruct (0 <=? s); [unfold slice; apply iupac_firstn, iupac_skipn; exact Hg|].
+    apply iupac_app; [apply iupac_skipn|apply iupac_firstn]; exact Hg. }
+  unfold window. destruct (direction =? -1); [apply iupac_revcomp|]; exact Hc.
 Qed.
 
 Lemma kinds_firstn : forall k l, kinds (firstn (3 * k) l) = firstn k (kinds l).
@@ -1714,7 +1785,7 @@ Proof.
 Qed.
 
 (* translating up to the first stop codon: the residues of the codons before it, none of them replaced *)
-Lemma translate_to_stop : forall k T, acgt T ->
+Lemma translate_to_stop : forall k T, iupac T ->
   (forall j, (j < k)%nat -> nth_error (kinds (map upper T)) j <> Some KStop) ->
   nth_error (kinds (map upper T)) k = Some KStop ->
   translate true T = translate false (firstn (3 * k) T) /\
@@ -1743,11 +1814,12 @@ Proof.
     + cbn [length]. f_equal. exact E3.
 Qed.
 
-Lemma filter_acgt T : acgt T -> filter (fun c => negb (c =? 45)) T = T.
+Lemma filter_iupac T : iupac T -> filter (fun c => negb (c =? 45)) T = T.
 Proof.
   induction T as [|x T IH]; intros H; [reflexivity|]. inversion H as [|? ? Hx HT]; subst. cbn [filter].
   assert (E : (x =? 45) = false).
-  { apply acgtb_In in Hx. cbn in Hx. destruct Hx as [<-|[<-|[<-|[<-|[<-|[<-|[<-|[<-|[]]]]]]]]]; reflexivity. }
+  { apply iupacb_In in Hx. unfold iupac_codes in Hx. cbn [In] in Hx.
+    repeat (destruct Hx as [<-|Hx]; [reflexivity|]). destruct Hx. }
   rewrite E. cbn [negb]. f_equal. apply IH. exact HT.
 Qed.
 Lemma map_id_on {A} (f : A -> A) l : Forall (fun x => f x = x) l -> map f l = l.
@@ -1755,7 +1827,7 @@ Proof. induction l as [|x l IH]; intros H; [reflexivity|]. inversion H; subst. c
 
 (* the whole create_feature_from_location path on an ORF text *)
 Lemma create_feature_orf g l f T k :
-  create_feature g l = Ok f -> lend l <= zlen g -> extract g l = T -> acgt T -> (1 <= k)%nat ->
+  create_feature g l = Ok f -> lend l <= zlen g -> extract g l = T -> iupac T -> (1 <= k)%nat ->
   length T = (3 * (k + 1))%nat ->
   (forall j, (j < k)%nat -> nth_error (kinds (map upper T)) j <> Some KStop) ->
   nth_error (kinds (map upper T)) k = Some KStop ->
@@ -1765,7 +1837,7 @@ Proof.
   destruct (translate_to_stop k T Hacgt Hno Hstop) as (E1 & E2 & E3).
   unfold create_feature, aa_translation in Hc.
   assert (Hlt : (zlen g <? lend l) = false) by (apply Z.ltb_ge; exact Hend). rewrite Hlt in Hc.
-  rewrite Hex, (filter_acgt T Hacgt) in Hc. cbn [bind] in Hc.
+  rewrite Hex, (filter_iupac T Hacgt) in Hc. cbn [bind] in Hc.
   destruct (translate true T) as [|c r] eqn:Ht; [cbn [length] in E3; lia|].
   rewrite map_id_on in Hc.
   2:{ eapply Forall_impl; [|exact E2]. cbn beta. intros aa Haa. unfold odd_residue in Haa. rewrite Haa. reflexivity. }
@@ -1799,15 +1871,15 @@ Proof.
   rewrite <- kinds_skipn. f_equal. rewrite skipn_add. reflexivity.
 Qed.
 
-(* the translation clause: on an ACGT/acgt genome the stored translation of every new feature is the protein of
+(* the translation clause: on a genome of IUPAC DNA letters (A C G T and the ambiguity codes, both cases) the stored translation of every new feature is the protein of
    the text its location extracts to - the codons before the stop codon translated one by one, first residue M *)
 Lemma find_all_orfs_translation g cds area ml ov feats f :
-  gaps_guard (zlen g) cds area ml ov = true -> acgt g ->
+  gaps_wf (zlen g) cds area ml ov = true -> iupac g ->
   find_all_orfs g cds area ml ov = Ok feats -> In f feats ->
   ftrans f = orf_protein (extract g (floc f)).
 Proof.
   intros Hg Hacgt Hres Hf.
-  destruct (find_all_orfs_unwind g cds area ml ov feats f Hres Hf) as (areas & [s e] & Hareas & Ha & Hl & Hc).
+  destruct (find_all_orfs_unwind g cds area ml ov feats f Hres Hf) as (areas & [s e] & Hareas & Ha & Hl & Hc & _).
   pose proof (intergenic_for_ok _ _ _ _ _ _ Hg Hareas) as Hok. rewrite Forall_forall in Hok.
   destruct (Hok _ Ha) as (Hw & Hlen & _ & _). cbn [fst snd] in Hw, Hlen.
   unfold area_orfs in Hl. apply in_app_or in Hl.
@@ -1831,7 +1903,7 @@ Proof.
   apply (create_feature_orf g (floc f) f (firstn (3 * (k + 1)) (skipn (frame + 3 * s') W)) k Hc).
   - rewrite Hloc. apply orf_location_lend; try assumption; lia.
   - exact Hext.
-  - apply acgt_firstn, acgt_skipn. apply acgt_window. exact Hacgt.
+  - apply iupac_firstn, iupac_skipn. apply iupac_window. exact Hacgt.
   - unfold k. lia.
   - rewrite firstn_length, skipn_length. unfold zlen in Hbounds. unfold k. lia.
   - intros j Hj. rewrite kinds_of_stretch. rewrite nth_error_firstn_lt by lia. rewrite nth_error_skipn_add.
@@ -1844,12 +1916,12 @@ Qed.
 
 (* the boolean specification evaluated at run time on every find_all_orfs output holds for the model's output *)
 Lemma find_all_orfs_spec_ok g cds area ml ov feats :
-  gaps_guard (zlen g) cds area ml ov = true -> forallb acgtb g = true ->
+  gaps_wf (zlen g) cds area ml ov = true -> forallb iupacb g = true ->
   find_all_orfs g cds area ml ov = Ok feats ->
   forallb (feature_ok g cds area ov) feats = true.
 Proof.
   intros Hg Hacgt Hres. apply forallb_forall. intros f Hf.
-  assert (Hacgt' : acgt g) by (unfold acgt; apply Forall_forall; rewrite forallb_forall in Hacgt; exact Hacgt).
+  assert (Hacgt' : iupac g) by (unfold iupac; apply Forall_forall; rewrite forallb_forall in Hacgt; exact Hacgt).
   destruct (find_all_orfs_gaps g cds area ml ov feats f Hg Hres Hf) as (_ & Hgenes & Hsearch).
   pose proof (find_all_orfs_translation g cds area ml ov feats f Hg Hacgt' Hres Hf) as Htr.
   unfold feature_ok. apply andb_true_intro. split; [apply andb_true_intro; split|].
@@ -1859,28 +1931,91 @@ Proof.
     cbn [zl_eqb]. rewrite Z.eqb_refl. exact IH.
 Qed.
 
+(* ------------------------------------------------------------------ get_trimmed_orf: the trimmed location *)
+Lemma length_zrange a n : length (zrange a n) = Z.to_nat n.
+Proof. unfold zrange. rewrite map_length, seq_length. reflexivity. Qed.
+Lemma length_part_positions p : length (part_positions p) = Z.to_nat (pe p - ps p).
+Proof. unfold part_positions. destruct (pst p =? -1); [rewrite rev_length|]; apply length_zrange. Qed.
+Lemma skipn_app_exact {A} (a b : list A) n : length a = n -> skipn n (a ++ b) = b.
+Proof. intros <-. rewrite skipn_app, skipn_all, Nat.sub_diag. reflexivity. Qed.
+
+(* the location get_trimmed_orf builds (since the repair of FC15d) occupies exactly the positions of the given location
+   without the first k in the order of translation - for every location whose parts are non-empty-or-empty ranges on
+   strand 1 or -1, in any number of parts (an ORF over the origin has two) *)
+Lemma trim_parts_positions : forall l k, 0 <= k ->
+  Forall (fun p => ps p <= pe p /\ (pst p = 1 \/ pst p = -1)) l ->
+  positions (trim_parts l k) = skipn (Z.to_nat k) (positions l).
+Proof.
+  induction l as [|p r IH]; intros k Hk Hl.
+  - cbn. rewrite skipn_nil. reflexivity.
+  - inversion Hl as [|? ? [Hp Hst] Hr]; subst. cbn [trim_parts]. cbv zeta.
+    change (positions (p :: r)) with (part_positions p ++ positions r).
+    destruct (pe p - ps p <=? k) eqn:Hle.
+    + apply Z.leb_le in Hle. rewrite IH by (try assumption; lia).
+      rewrite skipn_app. rewrite (@skipn_all2 _ (Z.to_nat k) (part_positions p)) by (rewrite length_part_positions; lia).
+      rewrite length_part_positions. cbn [app]. f_equal. lia.
+    + apply Z.leb_gt in Hle.
+      match goal with |- positions (?q :: _) = _ => change (positions (q :: trim_parts r 0)) with
+        (part_positions q ++ positions (trim_parts r 0)) end.
+      rewrite (IH 0) by (try assumption; lia). cbn [Z.to_nat skipn].
+      rewrite skipn_app. rewrite length_part_positions.
+      replace (Z.to_nat k - Z.to_nat (pe p - ps p))%nat with 0%nat by lia. cbn [skipn]. f_equal.
+      unfold part_positions. destruct Hst as [E|E]; rewrite E; cbn [Z.eqb Pos.eqb pst ps pe].
+      * replace (pe p - ps p) with (k + (pe p - (ps p + k))) by lia. rewrite zrange_app by lia.
+        rewrite skipn_app_exact by (rewrite length_zrange; reflexivity). reflexivity.
+      * replace (pe p - ps p) with ((pe p - k - ps p) + k) by lia. rewrite zrange_app by lia.
+        rewrite rev_app_distr. rewrite skipn_app_exact by (rewrite rev_length, length_zrange; reflexivity). reflexivity.
+Qed.
+
+(* FC15d trimmed_orf_over_origin is repaired: the recorded witness (ORF join{[48:60](+),[0:9](+)} = ATG AAA ATG AAA AAA AAA TAA
+   over the origin of a circular record of 60: the second ATG is 6 bases in; the envelope arithmetic used to give [6:60](+))
+   now gives join{[54:60](+),[0:9](+)} with translation MKKK, and the same on the reverse strand *)
+Lemma trimmed_witness_repaired :
+  let g' := [65; 65; 65; 65; 65; 65; 84; 65; 65] ++ repeat 67 39 ++ [65; 84; 71; 65; 65; 65; 65; 84; 71; 65; 65; 65] in
+  trim_parts [mkPart 48 60 1; mkPart 0 9 1] 6 = [mkPart 54 60 1; mkPart 0 9 1] /\
+  trim_parts [mkPart 0 12 (-1); mkPart 51 60 (-1)] 6 = [mkPart 0 6 (-1); mkPart 51 60 (-1)] /\
+  exists f, get_trimmed_orf g' [mkPart 48 60 1; mkPart 0 9 1] None None 5 = Ok (Some f) /\
+            floc f = [mkPart 54 60 1; mkPart 0 9 1] /\ ftrans f = [77; 75; 75; 75].
+Proof. cbn zeta. split; [vm_compute; reflexivity|]. split; [vm_compute; reflexivity|]. eexists. vm_compute. repeat split. Qed.
+
+(* FC15c ambiguous_stop_translation is repaired: TAR and TRA (R = A or G) are stop codons whatever the base is, Biopython ends
+   the translation there, and scan_orfs now ends the ORF there as well (STOP_CODONS, regenerated into c15_stop_codons).  The
+   recorded witness CCC ATG AAA TAR AAA AAA TAA CCC used to give ORF [3:21)(+) with the translation MK (2 residues for a
+   location of 5 codons + stop); it gives [3:12)(+) MK.  The general statement is find_all_orfs_translation, whose alphabet
+   now includes the ambiguity codes: it rests on codon_table_facts, which FAILS for the old table (TAR translates to '*' but
+   was not classified as a stop) *)
+Lemma ambiguous_stop_witness_repaired :
+  let g := [67; 67; 67; 65; 84; 71; 65; 65; 65; 84; 65; 82; 65; 65; 65; 65; 65; 65; 84; 65; 65; 67; 67; 67] in
+  forallb iupacb g = true /\ forallb (fun c => existsb (Z.eqb c) [65; 67; 71; 84]) g = false /\
+  translate_codon 84 65 82 = 42 /\ translate_codon 84 82 65 = 42 /\
+  classify 84 65 82 = KStop /\ classify 84 82 65 = KStop /\
+  scan_orfs g 1 0 3 None = [[mkPart 3 12 1]] /\
+  exists f, find_all_orfs g [] None 3 10 = Ok [f] /\ floc f = [mkPart 3 12 1] /\ ftrans f = [77; 75].
+Proof. cbn zeta. repeat (split; [vm_compute; reflexivity|]). eexists. vm_compute. repeat split. Qed.
+
 (* FC15a area_misses_enclosing_gene is repaired: its recorded witness (genes [5:40) [10:20), area [30:60), max_overlap 0 -
    the nested gene used to hide the enclosing one from the look-up, and ORF [33:42)(+) inside [5:40) was returned) is
-   now INSIDE the guard, the enclosing gene is handed to the gap search and nothing is returned *)
+   well-formed, the enclosing gene is handed to the gap search and nothing is returned *)
 Lemma gaps_witness_FC15a_repaired :
   let g := [67; 67; 67; 67; 67; 67; 67; 67; 67; 67; 67; 67; 67; 67; 67; 67; 67; 67; 67; 67; 67; 67; 67; 67; 67; 67; 67; 67; 67; 67; 67; 67; 67; 65; 84; 71; 65; 65; 65; 84; 65; 65; 67; 67; 67; 67; 67; 67; 67; 67; 67; 67; 67; 67; 67; 67; 67; 67; 67; 67] in
   let cds := [[mkPart 5 40 1]; [mkPart 10 20 1]] in
-  gaps_guard (zlen g) cds (Some [mkPart 30 60 1]) 5 0 = true /\
+  gaps_wf (zlen g) cds (Some [mkPart 30 60 1]) 5 0 = true /\
   cds_within cds (mkPart 30 60 1) = [[mkPart 5 40 1]] /\
   find_all_orfs g cds (Some [mkPart 30 60 1]) 5 0 = Ok [].
 Proof. cbn zeta. split; [vm_compute; reflexivity|]. split; vm_compute; reflexivity. Qed.
 
-(* the guard is needed: recorded finding FC15b origin_gene_padding_window as a statement about the model - a well-formed
-   input outside the guard (class 2) on which a returned feature shares more than max_overlap positions with a gene *)
-Lemma gaps_refuted_origin : exists g cds area ml ov feats f c,
-  gaps_wf (zlen g) cds (Some area) ml ov = true /\ forallb acgtb g = true /\ gaps_class cds (Some area) = 2 /\
-  find_all_orfs g cds (Some area) ml ov = Ok feats /\ In f feats /\ In c cds /\ ov < shared (floc f) c.
-Proof.
-  exists [84; 65; 71; 84; 67; 71; 84; 71; 84; 71; 67; 84; 71; 65; 67; 84; 84; 71; 65; 65; 84; 84; 84; 67; 67; 71; 84; 67; 71; 71; 84; 71; 67; 67; 65; 84; 71; 84; 65; 84; 71; 67; 65; 84; 67; 71; 84],
-         [[mkPart 0 9 (-1); mkPart 36 47 (-1)]; [mkPart 38 42 (1)]],
-         [mkPart 26 47 (1); mkPart 0 6 (1)], 5, 10.
-  eexists. eexists. eexists.
-  split; [vm_compute; reflexivity|]. split; [vm_compute; reflexivity|]. split; [vm_compute; reflexivity|].
-  split; [vm_compute; reflexivity|].
-  split; [left; reflexivity|]. split; [left; reflexivity|]. vm_compute. reflexivity.
-Qed.
+(* FC15b origin_gene_padding_window is repaired: its recorded witness (gene join{[0:9](-),[36:47](-)} spanning the origin,
+   area join{[26:47],[0:6]}, max_overlap 10: the window joined over the origin, positions 37..46 0..5, shares 16 positions
+   with the gene, and ORF join{[38:47](+),[0:3](+)} sharing 12 positions with it used to be returned) is well-formed, the
+   gene reaches into both parts (coverage class 2), the ORF is still found in the joined window and the test on the ORFs
+   drops it *)
+Lemma gaps_witness_FC15b_repaired :
+  let g := [84; 65; 71; 84; 67; 71; 84; 71; 84; 71; 67; 84; 71; 65; 67; 84; 84; 71; 65; 65; 84; 84; 84; 67; 67; 71; 84; 67; 71; 71; 84; 71; 67; 67; 65; 84; 71; 84; 65; 84; 71; 67; 65; 84; 67; 71; 84] in
+  let cds := [[mkPart 0 9 (-1); mkPart 36 47 (-1)]; [mkPart 38 42 1]] in
+  let area := [mkPart 26 47 1; mkPart 0 6 1] in
+  gaps_wf (zlen g) cds (Some area) 5 10 = true /\ forallb iupacb g = true /\ gaps_class cds (Some area) = 2 /\
+  intergenic_for (zlen g) cds (Some area) 5 10 = Ok [(37, 47); (-10, 6)] /\
+  In [mkPart 38 47 1; mkPart 0 3 1] (area_orfs g 5 (-10, 6)) /\
+  shared [mkPart 38 47 1; mkPart 0 3 1] [mkPart 0 9 (-1); mkPart 36 47 (-1)] = 12 /\
+  find_all_orfs g cds (Some area) 5 10 = Ok [].
+Proof. cbn zeta. repeat (split; [vm_compute; auto|]). vm_compute. reflexivity. Qed.
